@@ -228,16 +228,23 @@ def roundtrip_builder(clsq, kwargs):
                 kw[k] = SInt(z3.Int(k)); st.assume(kw[k].t >= 2)
             elif ty == "float":
                 kw[k] = SFloat(z3.Real(k)); st.assume(kw[k].t > 0)
+            elif ty == "int0":
+                kw[k] = SInt(z3.Int(k)); st.assume(kw[k].t >= 0)
+            elif isinstance(ty, str) and ty.startswith("func:"):
+                fm, _c, fn_node, _k = src.function(ty[5:])
+                kw[k] = FuncVal(fm, fn_node)
             else:
                 kw[k] = ty
-        outs = list(instantiate(ex, cls, [], kw, st, None))
-        outs = [(s1, o) for s1, o in outs if ex.ctx.feasible(s1)]
-        st1, obj = outs[0]
-        c0, prop = st1.heap[obj.oid].cls.find("properties", "settings")
-        outs2 = list(ex.call_function(FuncVal(c0.module, prop, c0), [obj], {}, st1, None))
-        st2, settings = outs2[0]
-        h = st2.alloc(ObjP(hcls, {"name": "hex", "_candles": st2.alloc(DictP({})), "_indicators": st2.alloc(DictP({}))}))
-        yield st2, [h, settings], {}, {"self": h, "raw_indicator": settings, "orig": obj}
+        for st1, obj in list(instantiate(ex, cls, [], kw, st, None)):
+            if not ex.ctx.feasible(st1):
+                continue
+            c0, prop = st1.heap[obj.oid].cls.find("properties", "settings")
+            # every path through the real `settings` property (e.g. fields it drops for some values)
+            for st2, settings in list(ex.call_function(FuncVal(c0.module, prop, c0), [obj], {}, st1, None)):
+                if not ex.ctx.feasible(st2):
+                    continue
+                h = st2.alloc(ObjP(hcls, {"name": "hex", "_candles": st2.alloc(DictP({})), "_indicators": st2.alloc(DictP({}))}))
+                yield st2, [h, settings], {}, {"self": h, "raw_indicator": settings, "orig": obj}
     return build
 
 
@@ -257,7 +264,14 @@ for _cls, _kw in (("hexital.indicators.sma.SMA", {"period": "int"}), ("hexital.i
                   ("hexital.indicators.stoch.STOCH", {"period": "int", "slow_period": "int"}), ("hexital.indicators.tsi.TSI", {"period": "int", "smooth_period": "int"}),
                   ("hexital.indicators.aroon.AROON", {"period": "int"}), ("hexital.indicators.adx.ADX", {"period": "int", "period_signal": "int"}),
                   ("hexital.indicators.obv.OBV", {}), ("hexital.indicators.vwap.VWAP", {"period": "int"})):
-    HEX_TASKS[H + "_build_indicator#settings-of-" + _cls.rsplit(".", 1)[1]] = dict(qualname=H + "_build_indicator", builder=roundtrip_builder(_cls, _kw), contract=ROUNDTRIP)
+    HEX_TASKS[H + "_build_indicator#settings-of-" + _cls.rsplit(".", 1)[1]] = dict(qualname=H + "_build_indicator", builder=roundtrip_builder(_cls, dict(_kw, round_value="int0")), contract=ROUNDTRIP)
+# the Amorph wrapper: the wrapped function travels by name, its arguments under "args", falsy fields (round_value=0) must survive
+HEX_TASKS[H + "_build_indicator#settings-of-Amorph"] = dict(
+    qualname=H + "_build_indicator",
+    builder=roundtrip_builder("hexital.indicators.amorph.Amorph", {"analysis": "func:hexital.analysis.movement.highest", "indicator": "close", "length": "int", "round_value": "int0"}),
+    contract=Contract(H + "_build_indicator", ensures={"same-class-and-parameters": "SameIndicator(result, orig)",
+                                                      "same-wrapped-function-and-arguments": "result._analysis_method is orig._analysis_method and result._analysis_kwargs == orig._analysis_kwargs"},
+                      result_type="None", props=["C08"], use_at_calls=False))
 
 
 CM = "hexital.core.candle_manager.CandleManager."
